@@ -6,7 +6,8 @@
      Call c op   the task reaches [HAcquire] (top level of _send_command, OUTSIDE the try: a
                  caller cancelled while queued runs no finally block, hence Cancel of a queued
                  caller changes nothing else)
-     Acquire c   [HAcquire] returns; [HAssertCommandNone; HAssertResponseNone] (still outside the
+     Acquire c   [HAcquire] returns; [HIf CTransportLost [HRelease; HRaise] []] (fix D16k: after a loss the
+                 caller gives the permit back and fails, nothing is sent); [HAssertCommandNone; HAssertResponseNone] (still outside the
                  try: a failing assertion keeps the permit); [HNewResponse; HSetCommand]; inside
                  the try [HSend], then the task waits in [HAwaitResponse]
      Deliver     on_hci_command_complete_event: [HIf COpcodeZero [HIf CCreditLocked [HRelease] []; HReturn] []],
@@ -14,6 +15,7 @@
                  [HIf CHasPendingResponse [...; HSetResult] [HIf CCreditLocked [HRelease] []]]
      Resume c    [HAwaitResponse] returns, [HReturn], then the finally block
                  [HClearCommand; HClearResponse; HIf CRespNoneOrCreditLocked [HRelease] []]
+     Lose        on_transport_lost: [HSetLost; HIf CPendingNotDone [HSetException] []]
      Cancel c    (owner) CancelledError in [HAwaitResponse]: both handlers re-raise ([HRaise]), the
                  finally block runs with response = None, hence [HRelease] unconditionally *)
 From Coq Require Import ZArith List String.
@@ -28,17 +30,20 @@ Inductive hcond :=
 | COpcodeMismatch           (* self.pending_command.op_code != event.command_opcode *)
 | COpcodeZero               (* event.command_opcode == 0 *)
 | CPendingNotDone           (* self.pending_response and not self.pending_response.done() *)
+| CTransportLost            (* self.transport_lost *)
 | COther.
 
 Inductive hstmt :=
 | HAcquire | HRelease | HAssertCommandNone | HAssertResponseNone
 | HNewResponse | HSetCommand | HClearCommand | HClearResponse
 | HSend | HAwaitResponse | HReturn | HRaise | HSetResult | HSetException | HCallProcessed
+| HSetLost | HClearLost     (* self.transport_lost = True / False *)
 | HTry (body : list hstmt) (handlers : list (list hstmt)) (fin : list hstmt)
 | HIf (c : hcond) (a b : list hstmt).
 
 Definition expected_send_command : list hstmt :=
-  [HAcquire; HAssertCommandNone; HAssertResponseNone; HNewResponse; HSetCommand;
+  [HAcquire; HIf CTransportLost [HRelease; HRaise] [];
+   HAssertCommandNone; HAssertResponseNone; HNewResponse; HSetCommand;
    HTry [HSend; HAwaitResponse; HReturn] [[HRaise]; [HRaise]]
         [HClearCommand; HClearResponse; HIf CRespNoneOrCreditLocked [HRelease] []]].
 
@@ -54,8 +59,10 @@ Definition expected_command_status_event : list hstmt := [HCallProcessed].
 
 (* not modelled in HostCmd.v, pinned so that a new use of the semaphore / pending_* shows up *)
 Definition expected_flush : list hstmt := [HAcquire; HRelease].
-Definition expected_transport_lost : list hstmt := [HIf CPendingNotDone [HSetException] []].
+Definition expected_transport_lost : list hstmt := [HSetLost; HIf CPendingNotDone [HSetException] []].
+(* not modelled: re-attaching a transport clears the flag *)
+Definition expected_set_packet_source : list hstmt := [HClearLost].
 
 Definition expected_touchers : list string :=
   ["__init__"; "_send_command"; "flush"; "on_command_processed"; "on_hci_command_complete_event";
-   "on_transport_lost"]%string.
+   "on_transport_lost"; "set_packet_source"]%string.
